@@ -79,6 +79,12 @@ class ConstrainedProblem(Problem):
 
         num_slacks = len(self.slack_positions)
 
+        if self.cons_offsets is None and num_slacks == 0:
+            return orig_cons
+
+        # do not modify the array returned by the user's callback
+        orig_cons = np.copy(orig_cons)
+
         if self.cons_offsets is not None:
             orig_cons += self.cons_offsets
 
